@@ -385,8 +385,14 @@ class ExprOps:
         rt, rf = [], []
         if isinstance(node, ast.Name) and v.kind == 'val' and 'any' not in v.ty:
             ks = {atom_kind(a) for a in v.ty}
+            drop = set()
             if 'none' in ks:
-                rt = [(node.id, self.restrict(v, ks - {'none'}))]
+                drop.add('none')
+            if 'estr' in v.ty and 'str' not in v.ty and 'nestr' not in v.ty:
+                drop.add('str')             # the only string it can be is the empty one, which is falsy
+                self.st.assume(mk_implies(is_tag('str', v.term), mk_eq("(vs %s)" % v.term, '""')), 'wf')
+            if drop and ks - drop:
+                rt = [(node.id, self.restrict(v, ks - drop))]
         return self.truthy(v), rt, rf
 
     def apply_refine(self, refs):
